@@ -323,6 +323,16 @@ REL_SCENARIOS = ("relational",)
 CREATE_SCENARIOS = ("create_rejected",)
 
 
+def _confirm_rowlimit(model, native):
+    """Native replay for the write-side row limit (C20): its own test, it inserts 65,537 rows"""
+    out = native("native::protocol::replay_row_limit", {})
+    if not out.get("_ran"):
+        return None, "native replay did not run"
+    if out.get("_panicked"):
+        return True, "native row-limit replay panicked: %s" % out.get("_panic_msg")
+    return (out.get("differs") == 1), (out.get("witness") or "a table filled to the limit refuses one more row and still reopens")
+
+
 def _confirm_create(model, native):
     """Native replay for create_table's catalog gate (C04)."""
     return _confirm(model, native, only=CREATE_SCENARIOS)
